@@ -4,6 +4,7 @@
    Model/Sem.v (counting semaphore / recursive mutex) with the constructor tuples generated from the source. *)
 From Coq Require Import List Arith Bool.
 From LokyV Require Import Model.Cond Proofs.CondInv Proofs.CondThm Model.Sem Proofs.SemThm Gen.Sync Char.SyncChar.
+From LokyV Require Lib.EventLib Gen.Event Model.Event Proofs.EventThm.
 Import ListNotations.
 
 (* ---- Condition: for any number of waiters and notifiers, any interleaving of their semaphore operations,
@@ -97,3 +98,53 @@ Theorem C14_rlock_reentrant_for_owner_only :
     /\ release t' (mksem RecursiveMutex v m (Some t) (S c)) = AssertionError.
 Proof. exact rlock_reentrant_for_owner_only. Qed.
 Print Assumptions C14_rlock_reentrant_for_owner_only.
+
+(* ---- Event (Model/Event.v; the four method bodies are Gen/Event.v, regenerated from the source) ---- *)
+Theorem C14_event_wait_returns_true_iff_set :
+  forall s e t b r, Event.reach s -> Event.step s e = (fst (Event.step s e), Event.ORet t (Event.MWait b) r) ->
+    r = Some (EventThm.is_set_now (fst (Event.step s e))) /\ Event.flag (fst (Event.step s e)) = Event.flag s.
+Proof. exact EventThm.wait_returns_true_iff_set. Qed.
+Print Assumptions C14_event_wait_returns_true_iff_set.
+
+Theorem C14_event_flag_is_binary_and_no_sleeper_while_set :
+  forall s, Event.reach s -> Event.flag s <= 1 /\
+    (Event.flag s = 1 -> Forall (fun p => Event.woken (snd p) = true) (Event.thr s)).
+Proof. intros s R. destruct (EventThm.reach_inv s R) as (H1 & _ & H3). split; assumption. Qed.
+Print Assumptions C14_event_flag_is_binary_and_no_sleeper_while_set.
+
+Theorem C14_event_set_wakes_everyone :
+  forall s t, Event.reach s -> Event.find t (Event.thr s) = None ->
+    let s' := fst (Event.step s (Event.Call t Event.MSet)) in
+    Event.flag s' = 1 /\ map fst (Event.thr s') = map fst (Event.thr s) /\
+    Forall (fun p => Event.woken (snd p) = true) (Event.thr s') /\
+    snd (Event.step s (Event.Call t Event.MSet)) = Event.ORet t Event.MSet None.
+Proof. exact EventThm.set_sets_and_wakes_everyone. Qed.
+Print Assumptions C14_event_set_wakes_everyone.
+
+Theorem C14_event_is_set_and_clear :
+  forall s t, Event.reach s -> Event.find t (Event.thr s) = None ->
+    Event.step s (Event.Call t Event.MIsSet) = (s, Event.ORet t Event.MIsSet (Some (EventThm.is_set_now s)))
+    /\ Event.step s (Event.Call t Event.MClear) = (Event.mke 0 (Event.thr s), Event.ORet t Event.MClear None).
+Proof. intros s t R F. split; [apply EventThm.is_set_reads_the_flag | apply EventThm.clear_clears_and_wakes_nobody]; assumption. Qed.
+Print Assumptions C14_event_is_set_and_clear.
+
+Theorem C14_event_wait_sleeps_only_on_a_clear_event :
+  forall s t b, Event.reach s -> Event.find t (Event.thr s) = None ->
+    (Event.flag s = 1 -> Event.step s (Event.Call t (Event.MWait b)) = (s, Event.ORet t (Event.MWait b) (Some true)))
+    /\ (Event.flag s = 0 -> snd (Event.step s (Event.Call t (Event.MWait b))) = Event.OSleep t).
+Proof.
+  intros s t b R F. split; intros Z.
+  - apply EventThm.wait_on_a_set_event_returns_at_once; assumption.
+  - rewrite (EventThm.wait_on_a_clear_event_sleeps s t b R F Z). reflexivity.
+Qed.
+Print Assumptions C14_event_wait_sleeps_only_on_a_clear_event.
+
+Theorem C14_event_untimed_waiter_needs_a_set :
+  forall s t st, Event.reach s -> Event.find t (Event.thr s) = Some st -> Event.tmeth st = Event.MWait false -> Event.woken st = false ->
+    Event.step s (Event.Resume t) = (s, Event.ONone).
+Proof. exact EventThm.untimed_waiter_needs_a_set. Qed.
+Print Assumptions C14_event_untimed_waiter_needs_a_set.
+
+Theorem C14_event_nothing_gets_stuck : forall s e, Event.reach s -> snd (Event.step s e) <> Event.OStuck.
+Proof. exact EventThm.nothing_gets_stuck. Qed.
+Print Assumptions C14_event_nothing_gets_stuck.
